@@ -921,12 +921,16 @@ def m_map_is_empty(ex, st, a, c, m):
     return [(True, z3.simplify(z3.And(z3.Not(w.rest_nonempty[ns]), *[z3.Not(e.present) for e in w.maps[ns]])))]
 
 
+f_key_rank = z3.Function('key_rank', StrS, z3.IntSort())       # position of a key in the store's byte order (strict, total)
+
+
 def m_map_range(ex, st, a, c, m):
+    import itertools as _it
     ns, ty = _map_ns(ex, a[0]), _map_type(c)
     w = st.world
     if not z3.is_false(z3.simplify(w.rest_nonempty[ns])):
         raise Unsupported('range over a map with an abstract remainder')
-    items = []
+    live = []
     for e in w.maps[ns]:
         p = z3.simplify(e.present)
         if z3.is_false(p):
@@ -934,11 +938,18 @@ def m_map_range(ex, st, a, c, m):
         if not z3.is_true(p):
             raise Unsupported('range over entries with symbolic presence')
         if ty is not None and e.fmt != ty:
-            items.append(err(Adt('StdError', 'ParseErr', [Opaque('target'), Opaque('msg')])))
+            live.append((e.key, err(Adt('StdError', 'ParseErr', [Opaque('target'), Opaque('msg')]))))
         else:
-            items.append(ok(Adt('tuple', None, [e.key, clone(e.val, {})])))
+            live.append((e.key, ok(Adt('tuple', None, [e.key, clone(e.val, {})]))))
     st.world.log.append(('range', ns, None, None))
-    return [(True, Adt('Iter', None, [items, 0]))]
+    if len(live) > 4:
+        raise Unsupported('range over more than 4 entries')
+    # the store iterates in key order: one outcome per ordering of the (symbolic) keys
+    outs = []
+    for perm in _it.permutations(range(len(live))):
+        conds = [f_key_rank(live[perm[i]][0]) < f_key_rank(live[perm[i + 1]][0]) for i in range(len(perm) - 1)]
+        outs.append((z3.And(*conds) if conds else True, Adt('Iter', None, [[live[j][1] for j in perm], 0])))
+    return outs
 
 
 def _item_ns(ex, itemv):
@@ -1374,5 +1385,108 @@ RAW_MODELS[:0] = [
     (r'^std::option::Option::as_ref$|^Result::as_ref$|^std::option::Option::as_mut$|^std::option::Option::as_deref$', m_as_ref),
     (r'^<.* as Iterator>::all$', m_all), (r'^core::slice::<impl \[.*\]>::(first|last)$', m_first_last),
     (r'^std::vec::Vec::extend$|^<std::vec::Vec<.*> as Extend<.*>>::extend$', m_vec_extend),
+]
+MODELS = [(re.compile(p), f) for p, f in RAW_MODELS]
+
+
+# ------------------------------------------------------------------ a few more std operations plausible edits reach for
+def m_option_take(ex, st, a, c, m):
+    r = a[0]
+    v = ex.read(r.cell, r.path)
+    ex.write(r.cell, r.path, NONE())
+    return [(True, v)]
+
+
+def m_mem_replace(ex, st, a, c, m):
+    r = a[0]
+    v = ex.read(r.cell, r.path)
+    ex.write(r.cell, r.path, a[1])
+    return [(True, v)]
+
+
+def m_mem_take(ex, st, a, c, m):
+    r = a[0]
+    v = ex.read(r.cell, r.path)
+    if isinstance(v, list):
+        d = []
+    elif isinstance(v, Adt) and v.ty == 'Uint128':
+        d = U(0)
+    elif isinstance(v, Adt) and v.ty == 'Option':
+        d = NONE()
+    elif isinstance(v, z3.ExprRef) and v.sort() == StrS:
+        d = lit('')
+    else:
+        raise Unsupported('mem::take of %r' % (v,))
+    ex.write(r.cell, r.path, d)
+    return [(True, v)]
+
+
+def m_iter_identity(ex, st, a, c, m):
+    return [(True, a[0])]
+
+
+def m_iter_find(ex, st, a, c, m):
+    """first element satisfying a symbolic predicate: one outcome per position"""
+    it = ex.deref(a[0])
+    clo_text = ex.closure_text(c)
+    items = _iter_items(ex, st, it)
+    outs, none_before = [], []
+    for x in items:
+        r = ex.call_closure(st, clo_text, a[1], [Ref(Cell(x), [])])
+        if len(r) != 1:
+            raise Unsupported('forking closure in find')
+        hit = r[0][1]
+        outs.append((z3.And(*(none_before + [hit])), some(x)))
+        none_before.append(z3.Not(hit))
+    outs.append((z3.And(*none_before) if none_before else True, NONE()))
+    return outs
+
+
+def m_u128_checked(ex, st, a, c, m):
+    x, y = uval(ex, a[0]), uval(ex, a[1])
+    op = c.rsplit('::', 1)[1]
+    if op == 'checked_add':
+        return [(x + y < TWO128, some(x + y)), (x + y >= TWO128, NONE())]
+    if op == 'checked_sub':
+        return [(x >= y, some(x - y)), (x < y, NONE())]
+    if op == 'checked_mul':
+        return [(x * y < TWO128, some(x * y)), (x * y >= TWO128, NONE())]
+    if op == 'saturating_sub':
+        return [(True, z3.If(x >= y, x - y, 0))]
+    if op == 'abs_diff':
+        return [(True, z3.If(x >= y, x - y, y - x))]
+    raise Unsupported(op)
+
+
+def m_multiply_ratio(ex, st, a, c, m):
+    x, n, d = uval(ex, a[0]), uval(ex, a[1]), uval(ex, a[2])
+    q, r = ex.euclid(st, x * n, d)
+    return [(d > 0, U(q)), (d == 0, PANIC('multiply_ratio by zero'))]
+
+
+f_lower = z3.Function('to_lowercase', StrS, StrS)
+
+
+def m_to_lowercase(ex, st, a, c, m):
+    return [(True, f_lower(sval(ex, a[0])))]
+
+
+def m_eq_ignore_case(ex, st, a, c, m):
+    return [(True, f_lower(sval(ex, a[0])) == f_lower(sval(ex, a[1])))]
+
+
+def m_bool_to_string(ex, st, a, c, m):
+    return [(True, z3.If(ex.deref(a[0]), lit('true'), lit('false')))]
+
+
+RAW_MODELS[:0] = [
+    (r'^<bool as ToString>::to_string$', m_bool_to_string),
+    (r'^std::option::Option::take$', m_option_take), (r'^std::mem::replace$', m_mem_replace), (r'^std::mem::take$', m_mem_take),
+    (r'^<.* as Iterator>::(cloned|copied|by_ref|rev)$|^<.* as DoubleEndedIterator>::rev$', m_iter_identity),
+    (r'^<.* as Iterator>::find$', m_iter_find),
+    (r'^core::num::<impl u128>::(checked_add|checked_sub|checked_mul|saturating_sub|abs_diff)$', m_u128_checked),
+    (r'^Uint128::multiply_ratio$', m_multiply_ratio),
+    (r'^core::str::<impl str>::to_lowercase$|^std::string::String::to_lowercase$|^alloc::str::<impl str>::to_lowercase$', m_to_lowercase),
+    (r'^core::str::<impl str>::eq_ignore_ascii_case$', m_eq_ignore_case),
 ]
 MODELS = [(re.compile(p), f) for p, f in RAW_MODELS]
